@@ -701,6 +701,28 @@ theorem noTrailEnds_sound {g : Graph} {i : Nat} {L : Lex} {F : Nat} {ends : List
     | bad => rw [hr] at hok; simp [Res.isOk] at hok
     | fuel => rw [hr] at hok; simp [Res.isOk] at hok
 
+/-- the bounded scan is a necessary condition: if it evaluates to `false`, `NoTrailingSep` is false -/
+theorem noTrailScan_of {g : Graph} {i : Nat} {L : Lex} (h : NoTrailingSep g i L) (F : Nat) :
+    noTrailScanB g i L F = true := by
+  unfold noTrailScanB
+  cases hi : g.get i with
+  | none => rfl
+  | some nd =>
+    simp only
+    split
+    · rename_i k s hk hs
+      simp only [List.all_eq_true]
+      intro p₀ _ c _
+      split
+      · rename_i v q hq
+        split
+        · rename_i v₁ p₁ hs₁
+          simp only [bne_iff_ne, ne_eq]
+          exact h nd k s hi hk hs F F c p₀ v q v₁ p₁ hq hs₁ F
+        · rfl
+      · rfl
+    · rfl
+
 theorem ofTable_tok {input : Array Char} {tbl : List (Nat × Nat × Nat)} {t p len : Nat}
     (h : (Lex.ofTable input tbl).tok t p = some len) : (t, p, len) ∈ tbl := by
   simp only [Lex.ofTable] at h
@@ -723,6 +745,15 @@ theorem ofTable_ends {input : Array Char} {tbl : List (Nat × Nat × Nat)} {t p 
   have := ofTable_tok h
   simp only [tableEnds, List.mem_map, List.mem_filter, beq_iff_eq]
   exact ⟨(t, p, len), ⟨this, rfl⟩, rfl⟩
+
+/-- `NoTrailingSep` for a table lexer, decided by evaluating the element after every separator token -/
+theorem noTrailTable_sound {g : Graph} {i : Nat} {input : Array Char} {tbl : List (Nat × Nat × Nat)} {F : Nat}
+    (h : noTrailEndsB g i (Lex.ofTable input tbl) F (tableEnds tbl (sepTok g i)) = true) :
+    NoTrailingSep g i (Lex.ofTable input tbl) := by
+  refine noTrailEnds_sound (fun nd s ns h1 h2 h3 p len htok => ?_) h
+  have : sepTok g i = ns.tok := by simp [sepTok, h1, h2, h3]
+  rw [this]
+  exact ofTable_ends htok
 
 theorem ofTable_none {input : Array Char} {tbl : List (Nat × Nat × Nat)} {p : Nat}
     (hp : ∀ e, e ∈ tbl → e.2.1 ≠ p) (t : Nat) : (Lex.ofTable input tbl).tok t p = none := by
